@@ -14,6 +14,7 @@ import (
 	"time"
 
 	"github.com/ARM-software/golang-utils/utils/filesystem"
+	"github.com/ARM-software/golang-utils/utils/verifrt"
 	deadlock "github.com/sasha-s/go-deadlock"
 	"github.com/spf13/afero"
 
@@ -78,6 +79,7 @@ type world struct {
 	born     time.Time
 	sawInc   []int // incarnation each contender found in its way (Mkdir said "exists") in its current acquire attempt
 	lost     []bool // the contender's own incarnation was removed by somebody else
+	stale    []int  // IsStale evaluations of each contender since its Mkdir last said "exists"
 	outside  int   // removals outside the premise (victim stalled > 2 periods before its heart beat started)
 	phase    []phase
 	api      []string // API call each contender is in
@@ -105,6 +107,7 @@ func (w *world) afterOp(op *vfsx.Op) {
 	if op.Err != nil {
 		if op.Kind == vfsx.KMkdir {
 			w.sawInc[op.Client] = w.inc
+			w.stale[op.Client] = 0
 		}
 		return
 	}
@@ -127,6 +130,11 @@ func (w *world) afterOp(op *vfsx.Op) {
 				} else {
 					sig += ":own-lock=never-removed"
 				}
+			}
+			if strings.HasPrefix(w.site(x), "Acquire") {
+				// how many times the remover re-evaluated staleness after the first verdict, before it removed: the pinned
+				// code re-checks once (TryLock: IsStale, then ReleaseIfStale: IsStale again)
+				sig += fmt.Sprintf(":rechecks=%d", w.stale[x]-1)
 			}
 			judgedSame := strings.HasPrefix(w.site(x), "Acquire") && w.sawInc[x] == w.inc
 			if judgedSame {
@@ -172,7 +180,14 @@ func newBackend(kind string) afero.Fs {
 func body(sc scenario) func(x *gosim.Exec) {
 	return func(x *gosim.Exec) {
 		n := len(sc.Contenders)
-		w := &world{x: x, owner: -1, phase: make([]phase, n), api: make([]string, n), ownGone: make([]bool, n), acquired: make([]int, n), outcome: make([]string, n), sawInc: make([]int, n), lost: make([]bool, n)}
+		w := &world{x: x, owner: -1, phase: make([]phase, n), api: make([]string, n), ownGone: make([]bool, n), acquired: make([]int, n), outcome: make([]string, n), sawInc: make([]int, n), lost: make([]bool, n), stale: make([]int, n)}
+		verifrt.EventHook = func(name string) {
+			if name == "IsStale" {
+				if th := x.Current(); th != nil && th.Client >= 0 && th.Client < n {
+					w.stale[th.Client]++
+				}
+			}
+		}
 		x.User = w
 		backend := newBackend(sc.Backend)
 		_ = backend.MkdirAll(lockRoot, 0o755)
